@@ -51,6 +51,7 @@ REQUIRED = {
         'cli-et-checked-against-interval-average': 6,
         'cli-et-first-step-average-differs-by-5-percent': 3,
         'cli-tables-checked': 6,
+        'cli-cases-with-negative-night-time-evapotranspiration': 2,
         'second-set-curvature-refused': 1,
         'cli-black-box-et-checked': 1,
     }
@@ -298,8 +299,10 @@ def check_cli_case(ctx, rng, index):
     import spowtd.transmissivity as t_mod
 
     rec = ctx.rec
-    et_mode = ['diurnal', 'random', 'weekly'][index % 3]
-    case = gen_planted.gen(rng, et_mode=et_mode) if index % 4 else dict(gen_planted.gen_noisy(rng))
+    et_mode = ['diurnal', 'condensation', 'random', 'weekly'][index % 4]
+    case = gen_planted.gen(rng, et_mode=et_mode) if index % 5 else dict(gen_planted.gen_noisy(rng))
+    if case.get('kind') == 'planted' and et_mode == 'condensation':
+        rec.hit('cli-cases-with-negative-night-time-evapotranspiration')
     black_box = index % 2 == 0
     curvature = 0.0 if black_box else rng.choice([2.36, 1.0, rng.uniform(0.1, 5)])
     db = os.path.join(ctx.workdir, 'q{}.sqlite3'.format(index))
